@@ -215,27 +215,21 @@ func Run(prefix []int, eager bool, maxSteps int, mains []func(), names []string)
 	e.cur = nil
 	_ = e.schedule(nil)
 	<-e.finished
-	// abort whatever is still parked (daemons, deadlocked threads)
+	// abort whatever is still parked (daemons, deadlocked threads, threads of a cut execution),
+	// one thread at a time: an aborted thread unwinds through the deferred calls of the code
+	// under test (Close, Unlock ...), which reach the shims' bookkeeping; two threads unwinding
+	// at once would race there.
 	e.aborting = true
 	for _, t := range e.threads {
-		if t.started && !t.done {
-			t.wake.signal()
+		if !t.started || t.done {
+			continue
 		}
-	}
-	// give aborted goroutines a moment to unwind (they must not touch the next execution's state)
-	for spins := 0; spins < 2000; spins++ {
-		all := true
-		for _, t := range e.threads {
-			if t.started && !t.done {
-				all = false
+		t.wake.signal()
+		for spins := 0; !t.done && spins < 4000; spins++ {
+			runtime.Gosched()
+			if spins > 200 {
+				time.Sleep(50 * time.Microsecond)
 			}
-		}
-		if all {
-			break
-		}
-		runtime.Gosched()
-		if spins > 100 {
-			time.Sleep(50 * time.Microsecond)
 		}
 	}
 	for _, t := range e.threads {
